@@ -197,9 +197,10 @@ contract('AdbDevice._okay',
          props=['C04', 'C01', 'C12'],
          requires=STREAM_OK[:1] + [NOLOCK],
          modifies=IO_MOD,
-         ensures=[('C04', 'one-OKAY-with-local-then-remote-id', "G.wire == old(G.wire) + frame(OKAY, adb_info.local_id, adb_info.remote_id, b'')"),
+         ensures=[('C04', 'one-OKAY-with-local-then-remote-id', "G.peer_rx == old(G.peer_rx) + frame(OKAY, adb_info.local_id, adb_info.remote_id, b'')"),
                   RELEASED, MONO_IO],
-         raises={'struct.error': [('C04', 'nothing-written', 'G.wire == old(G.wire)'), RELEASED, MONO_IO], '*': [RELEASED, MONO_IO]})
+         raises={'struct.error': [('C04', 'nothing-written', 'G.peer_rx == old(G.peer_rx)'), RELEASED, MONO_IO], 'AdbTimeoutError': [RELEASED, MONO_IO],
+                 '*': [RELEASED, MONO_IO]})
 
 contract('AdbDevice._read_until',
          real=dev('_read_until'),
@@ -215,7 +216,7 @@ contract('AdbDevice._read_until',
                   ('C01,C04,C08', 'one-packet-consumed', 'G.di == store(old(G.di), {0}, {1} + 1)'.format(LID, DI0)),
                   ('C01,C04,C10', 'command-is-expected', 'result[0] in expected_cmds'),
                   ('C04', 'one-OKAY-per-delivered-WRTE-none-otherwise',
-                   "G.wire == old(G.wire) + ite(result[0] == WRTE, frame(OKAY, adb_info.local_id, adb_info.remote_id, b''), b'')"),
+                   "G.peer_rx == old(G.peer_rx) + ite(result[0] == WRTE, frame(OKAY, adb_info.local_id, adb_info.remote_id, b''), b'')"),
                   RELEASED, MONO],
          raises=exc_all([RELEASED, MONO]))
 
@@ -225,14 +226,14 @@ contract('AdbDevice._clse',
          props=['C04', 'C12', 'C08', 'C09'],
          requires=STREAM_OK + [NOLOCK],
          modifies=IO_MOD + RD_MOD,
-         ensures=[('C04', 'exactly-one-CLSE-sent', "G.wire == old(G.wire) + frame(CLSE, adb_info.local_id, adb_info.remote_id, b'')"),
+         ensures=[('C04', 'exactly-one-CLSE-sent', "G.peer_rx == old(G.peer_rx) + frame(CLSE, adb_info.local_id, adb_info.remote_id, b'')"),
                   ('C04', 'device-CLSE-received', 'D_cmd({0}, {1}) == CLSE and G.di == store(old(G.di), {0}, {1} + 1)'.format(LID, DI0)),
                   ('C08,C09', 'no-sync-input-consumed', 'G.sgot == old(G.sgot)'),
                   RELEASED, MONO],
          raises=exc_all([RELEASED, MONO]))
 
 NEXTID = 'nextid(old(self._local_id))'
-OPEN_MOD = IO_MOD + RD_MOD + ['self._local_id', 'G.spos']
+OPEN_MOD = IO_MOD + RD_MOD + ['self._local_id', 'G.spos', 'G.sync_out', 'G.sync_flushed', 'G.pushed', 'G.nsync']
 
 contract('AdbDevice._open',
          real=dev('_open'),
@@ -241,12 +242,17 @@ contract('AdbDevice._open',
          props=['C14', 'C04', 'C01', 'C11', 'C12'],
          requires=['self._local_id >= 0 and self._local_id < 2**32', 'G.rpos >= 0 and G.rpos <= len(G.dev)', NOLOCK],
          modifies=OPEN_MOD,
-         ghost_exit=[('G.spos', 'store(G.spos, self._local_id, G.sgot[self._local_id])')],
-         ensures=[('C08,C09', 'sync-reader-starts-with-nothing-buffered', 'G.spos == store(old(G.spos), self._local_id, G.sgot[self._local_id]) and G.sgot == old(G.sgot)'),
+         ghost_exit=[('G.spos', 'store(G.spos, self._local_id, G.sgot[self._local_id])'),
+                     ('G.sync_out', 'store(G.sync_out, self._local_id, b"")'), ('G.sync_flushed', 'store(G.sync_flushed, self._local_id, b"")'),
+                     ('G.pushed', 'store(G.pushed, self._local_id, b"")'), ('G.nsync', 'store(G.nsync, self._local_id, 0)')],
+         ensures=[('C07', 'sync-output-logs-of-the-new-stream-start-empty',
+                   'G.sync_out == store(old(G.sync_out), self._local_id, b"") and G.sync_flushed == store(old(G.sync_flushed), self._local_id, b"") '
+                   'and G.pushed == store(old(G.pushed), self._local_id, b"") and G.nsync == store(old(G.nsync), self._local_id, 0)'),
+                  ('C08,C09', 'sync-reader-starts-with-nothing-buffered', 'G.spos == store(old(G.spos), self._local_id, G.sgot[self._local_id]) and G.sgot == old(G.sgot)'),
                   ('C14', 'next-id-with-wrap', 'self._local_id == %s' % NEXTID),
                   ('C14', 'id-in-1..2^32-1', 'self._local_id >= 1 and self._local_id <= 2**32 - 1'),
                   ('C14,C04', 'stream-uses-that-id', 'same(result.local_id, self._local_id)'),
-                  ('C04', 'OPEN-with-fresh-id-arg1-0-NUL-terminated', "G.wire == old(G.wire) + frame(OPEN, self._local_id, 0, destination + b'\\0')"),
+                  ('C04', 'OPEN-with-fresh-id-arg1-0-NUL-terminated', "G.peer_rx == old(G.peer_rx) + frame(OPEN, self._local_id, 0, destination + b'\\0')"),
                   ('C04', 'remote-id-is-the-one-announced-in-OKAY',
                    'not isnone(result.remote_id) and val(result.remote_id) == D_a0({0}, old(G.di)[{0}]) and D_cmd({0}, old(G.di)[{0}]) == OKAY'.format(NEXTID)),
                   ('C04,C01', 'one-packet-consumed', 'G.di == store(old(G.di), {0}, old(G.di)[{0}] + 1)'.format(NEXTID)),
@@ -277,16 +283,16 @@ contract('AdbDevice._read_until_close',
          yield_havoc=[],
          on_yield=[('C01', 'yields-the-payloads-in-order', 'value == D_data({0}, {1} + _yi)'.format(LID, DI0)),
                    ('C01', 'only-WRTE-payloads', 'D_cmd({0}, {1} + _yi) == WRTE'.format(LID, DI0)),
-                   ('C04', 'acknowledged-before-handing-out', 'G.wire == old(G.wire) + rep(%s, _yi + 1)' % OKAYF),
+                   ('C04', 'acknowledged-before-handing-out', 'G.peer_rx == old(G.peer_rx) + rep(%s, _yi + 1)' % OKAYF),
                    ('C01,C04', 'position', 'G.di == store(old(G.di), {0}, {1} + _yi + 1)'.format(LID, DI0))],
          ensures=[('C01', 'stops-at-the-first-CLSE', 'D_cmd({0}, {1} + _n) == CLSE'.format(LID, DI0)),
                   ('C01,C04', 'consumed-n-payloads-and-the-CLSE', 'G.di == store(old(G.di), {0}, {1} + _n + 1)'.format(LID, DI0)),
-                  ('C04', 'one-OKAY-per-WRTE-then-exactly-one-CLSE', 'G.wire == old(G.wire) + rep(%s, _n) + %s' % (OKAYF, CLSEF)),
+                  ('C04', 'one-OKAY-per-WRTE-then-exactly-one-CLSE', 'G.peer_rx == old(G.peer_rx) + rep(%s, _n) + %s' % (OKAYF, CLSEF)),
                   RELEASED, MONO],
          raises=exc_all([RELEASED, MONO]),
          loops={0: dict(invariant=[
              ('C01,C04,C11', 'G.di == store(old(G.di), {0}, {1} + _yi)'.format(LID, DI0)),
-             ('C04', 'G.wire == old(G.wire) + rep(%s, _yi)' % OKAYF),
+             ('C04', 'G.peer_rx == old(G.peer_rx) + rep(%s, _yi)' % OKAYF),
              ('C01,C04,C11,C12', UNLOCKED),
              ('C01,C04,C11', MONO + ' and G.rpos >= 0'),
              ('C11', 'start >= old(G.now)'),
@@ -311,7 +317,7 @@ contract('AdbDevice._streaming_command',
                   ('C01,C04', 'consumed-OKAY-n-payloads-CLSE', 'G.di == store(old(G.di), {0}, old(G.di)[{0}] + _n + 2)'.format(NEXTID)),
                   ('C14', 'stream-id', 'self._local_id == %s' % NEXTID),
                   ('C01,C04', 'OPEN-then-one-OKAY-per-WRTE-then-one-CLSE',
-                   "G.wire == old(G.wire) + frame(OPEN, {0}, 0, service + b':' + command + b'\\0') + rep(frame(OKAY, {0}, D_a0({0}, old(G.di)[{0}]), b''), _n)"
+                   "G.peer_rx == old(G.peer_rx) + frame(OPEN, {0}, 0, service + b':' + command + b'\\0') + rep(frame(OKAY, {0}, D_a0({0}, old(G.di)[{0}]), b''), _n)"
                    " + frame(CLSE, {0}, D_a0({0}, old(G.di)[{0}]), b'')".format(NEXTID)),
                   RELEASED, MONO],
          raises=exc_all([RELEASED, MONO]),
@@ -324,7 +330,7 @@ SVC_BYTES = 'catD({0}, old(G.di)[{0}] + 1, {1})'.format(NEXTID, SVC_N)
 def svc_wire(service_expr, command_expr):
     """OPEN 'service:command\0' on the fresh stream, one OKAY per delivered WRTE, one CLSE -- and nothing else."""
     rem = 'D_a0({0}, old(G.di)[{0}])'.format(NEXTID)
-    return ("G.wire == old(G.wire) + frame(OPEN, {lid}, 0, {svc} + b':' + {cmd} + b'\\0') + rep(frame(OKAY, {lid}, {rem}, b''), {n})"
+    return ("G.peer_rx == old(G.peer_rx) + frame(OPEN, {lid}, 0, {svc} + b':' + {cmd} + b'\\0') + rep(frame(OKAY, {lid}, {rem}, b''), {n})"
             " + frame(CLSE, {lid}, {rem}, b'')").format(lid=NEXTID, svc=service_expr, cmd=command_expr, rem=rem, n=SVC_N)
 
 
@@ -339,6 +345,7 @@ contract('AdbDevice._service',
          ensures=[('C01', 'raw-result-is-the-exact-concatenation', 'implies(not decode, same(result, %s))' % SVC_BYTES),
                   ('C01', 'decoded-once-over-the-whole-concatenation-backslashreplace', 'implies(decode, same(result, dec_bsr(%s)))' % SVC_BYTES),
                   ('C01', 'payload-count-nonnegative', SVC_N + ' >= 0'),
+                  ('C14', 'stream-id', 'self._local_id == %s' % NEXTID),
                   ('C01,C04', 'OPEN-service:command-then-one-OKAY-per-WRTE-then-one-CLSE', svc_wire('service', 'command')),
                   ('C01', 'stream-closed-by-device', 'D_cmd({0}, G.di[{0}] - 1) == CLSE'.format(NEXTID)),
                   RELEASED, MONO],
@@ -388,7 +395,7 @@ for _name, _svc in (('shell', "b'shell'"), ('exec_out', "b'exec'")):
              props=['C01', 'C13', 'C12'],
              requires=OP_REQ,
              modifies=OPEN_MOD,
-             ensures=[AVAIL,
+             ensures=[AVAIL, ('C14', 'stream-id', 'self._local_id == %s' % NEXTID),
                       ('C01', 'raw-result-is-the-exact-concatenation', 'implies(not decode, same(result, %s))' % SVC_BYTES),
                       ('C01', 'decoded-once-over-the-whole-concatenation', 'implies(decode, same(result, dec_bsr(%s)))' % SVC_BYTES),
                       ('C01,C04', 'OPEN-destination-then-one-OKAY-per-WRTE-then-one-CLSE', svc_wire(_svc, 'utf8(command)')),
